@@ -13,6 +13,7 @@ BValid(b) == TRUE
 BUid(b) == ""
 BKind(b) == "ics"
 PropOK(k, p) == TRUE
+DefaultKind(c) == ""
 Coll == {}
 Name == {}
 Body == {}
